@@ -11,7 +11,7 @@ def _prog_for(kind, name, unit="program"):
         return dict(unit=unit, spec=[name], exec=["continue"])
     if kind == "exec":
         return dict(unit=unit, spec=[], exec=[name])
-    return dict(unit=unit, spec=[], exec=[[name, ["assign"]]])
+    return dict(unit=unit, spec=[], exec=["call_plain", [name, ["assign"]]])
 
 
 def base_programs():
@@ -61,9 +61,12 @@ def programs(tier):
     return out
 
 
-def program_units(tier, h, stds=("f2003", "f2008"), ics=(True,), k=None, lens=None, extra=None, filt=None):
-    """units: program x rotation group of symbolic holes x std x ignore_comments"""
+def program_units(tier, h, stds=("f2003", "f2008"), ics=(True,), k=None, lens=None, extra=None, filt=None, rotate=False):
+    """units: program x rotation group of symbolic holes x std x ignore_comments.
+    rotate=True: instead of the full product each (program, hole) gets one (std, ic) combination,
+    rotating over the combinations"""
     units = []
+    rot = 0
     base = base_programs()
     for p in programs(tier):
         if filt is not None and not filt(p):
@@ -75,10 +78,12 @@ def program_units(tier, h, stds=("f2003", "f2008"), ics=(True,), k=None, lens=No
         ln = lens or (LENS_T if (tier != "quick" and p in base) else LENS_Q)
         groups = G.sym_rotations(holes, k or 2, ln) or [{}]
         for gi, g in enumerate(groups):
-            for std in stds:
-                if f08 and std == "f2003":
-                    continue
-                for ic in ics:
+            combos = [(std, ic) for std in stds for ic in ics if not (f08 and std == "f2003")]
+            if rotate and combos:
+                rot += 1
+                combos = [combos[rot % len(combos)]]
+            for std, ic in combos:
+                if True:
                     u = dict(h=h, prog=p, sym=g, std=std, ic=ic, cost=len(g) + 2 * len(str(p)) // 40)
                     if extra:
                         u.update(extra)
